@@ -72,7 +72,7 @@ class FakeCtx(object):
 
 
 class TlsWorld(World):
-    def __init__(self, role, tls_enable, require_tls, require_host, require_node, by_name, handshake_ok, cert_der):
+    def __init__(self, role, tls_enable, require_tls, require_host, require_node, by_name, handshake_ok, cert_der, config_text=None):
         World.__init__(self)
         ns = _env.load_tcpcl('A')
         ns.session.Connection.CHUNK_SIZE = 10240
@@ -94,8 +94,15 @@ class TlsWorld(World):
         conn.sent_log = []
         self.conns.append(conn)
         proc = self.add_proc('R')
-        cfg = Cfg(tls_enable=tls_enable, require_tls=require_tls, require_host_authn=require_host,
-                  require_node_authn=require_node, node_id='dtn://local/', segment_size_mru=64, segment_size_tx_initial=64)
+        if config_text is None:
+            cfg = Cfg(tls_enable=tls_enable, require_tls=require_tls, require_host_authn=require_host,
+                      require_node_authn=require_node, node_id='dtn://local/', segment_size_mru=64, segment_size_tx_initial=64)
+        else:
+            # the way the daemon gets its settings: defaults, then the configuration file
+            import io
+            cfg = Cfg(node_id='dtn://local/', segment_size_mru=64, segment_size_tx_initial=64)
+            cfg.from_file(io.StringIO(config_text))
+        self.cfg = cfg
         cfg._bus_conn = proc.bus
         kwargs = dict(config=cfg, sock=conn.ends[ridx])
         if role == 'passive':
@@ -231,6 +238,88 @@ def run_table1(params, known):
 
 
 # ---------------------------------------------------------------------------
+# settings that come from the configuration file
+
+ABSENT = object()
+FILE_FIELDS = {
+    'tls_enable': (ABSENT, True, False),
+    'require_tls': (ABSENT, True, False, None),
+    'require_host_authn': (ABSENT, True, False),
+    'require_node_authn': (ABSENT, True, False),
+    'keepalive_time': (ABSENT, 0, 5),
+    'idle_time': (ABSENT, 0, 7),
+    'segment_size_mru': (ABSENT, 4096),
+    'node_id': (ABSENT, '', 'dtn://file/'),
+    'stop_on_close': (ABSENT, True, False),
+}
+
+
+def run_config_file(params, known):
+    '''Config.from_file(): every combination of present / absent / "false-like" values of the
+    settings the negotiation depends on.  A setting present in the file has that value afterwards
+    (false, 0 and the empty string included), an absent one keeps its default; then the TLS part
+    of table 1 is repeated with the endpoint configured from the file.'''
+    import io
+    import json
+    violations = []
+    kinds = set()
+    count = 0
+    keys = set()
+    ns = _env.load_tcpcl('A')
+
+    def viol(kind, sig, detail, row):
+        key = (kind, tuple(sorted(sig.items())))
+        if key in kinds:
+            return
+        kinds.add(key)
+        v = Violation(PROP, 'config-file', kind, sig, '%r: %s' % (row, detail)).as_dict()
+        v['case'] = row
+        violations.append(v)
+    names = sorted(FILE_FIELDS)
+    defaults = ns.config.Config()
+    for combo in itertools.product(*[FILE_FIELDS[n] for n in names]):
+        count += 1
+        content = {n: v for (n, v) in zip(names, combo) if v is not ABSENT}
+        text = json.dumps({'tcpcl': content})
+        cfg = ns.config.Config()
+        try:
+            cfg.from_file(io.StringIO(text))
+        except Exception as err:
+            viol('configuration-file-rejected', dict(exc=type(err).__name__), '%s: %s' % (type(err).__name__, err), dict(file=text))
+            continue
+        for (n, v) in zip(names, combo):
+            want = getattr(defaults, n) if v is ABSENT else v
+            if getattr(cfg, n) != want or type(getattr(cfg, n)) is not type(want):
+                viol('setting-differs-from-file', dict(field=n, value=repr(v) if v is not ABSENT else 'absent'),
+                     '%s is %r after loading, the file says %s' % (n, getattr(cfg, n), 'nothing (default %r)' % (want,) if v is ABSENT else repr(v)),
+                     dict(file=text))
+    # behaviour with the TLS settings taken from the file
+    for (tls_enable, require, peer_can, role) in itertools.product(FILE_FIELDS['tls_enable'], FILE_FIELDS['require_tls'], (True, False), ('active', 'passive')):
+        count += 1
+        content = {}
+        if tls_enable is not ABSENT:
+            content['tls_enable'] = tls_enable
+        if require is not ABSENT:
+            content['require_tls'] = require
+        text = json.dumps({'tcpcl': content})
+        row = dict(file=text, peer_can_tls=peer_can, role=role)
+        world = TlsWorld(role, None, None, False, False, False, True, make_cert(()), config_text=text)
+        obs = run_exchange(world, peer_can)
+        eff_enable = True if tls_enable is ABSENT else tls_enable
+        eff_require = None if require is ABSENT else require
+        attempt = eff_enable and peer_can
+        proceed = not (eff_require is not None and attempt != eff_require)
+        keys.add(repr(sorted(row.items())))
+        if world.escaped:
+            viol('exception-escaped-callback', dict(exc=world.escaped[-1][0]), '%s: %s' % world.escaped[-1][:2], row)
+        elif proceed and (obs['sess_init'] != 1 or not obs['established'] or obs['wrapped'] != attempt):
+            viol('file-settings-not-followed', dict(), 'policy allows a %s session: %r' % ('secured' if attempt else 'clear', obs), row)
+        elif not proceed and (obs['sess_init'] or obs['established']):
+            viol('session-proceeds-against-tls-policy', dict(require=str(eff_require)), repr(obs), row)
+    return dict(name=params['name'], evaluations=count, nontrivial_keys=sorted(keys), violations=violations, known=[], samples=[])
+
+
+# ---------------------------------------------------------------------------
 # table 2
 
 _KEY = None
@@ -357,7 +446,8 @@ def run_table2(params, known):
 
 
 def scenarios(tier):
-    out = [dict(name='table1', kind='enum', runner='run_table1', params=dict(name='table1'), weight=5)]
+    out = [dict(name='table1', kind='enum', runner='run_table1', params=dict(name='table1'), weight=5),
+           dict(name='config-file', kind='enum', runner='run_config_file', params=dict(name='config-file'), weight=5)]
     for part in range(8):
         name = 'table2-%d/8' % (part + 1)
         out.append(dict(name=name, kind='enum', runner='run_table2', params=dict(name=name, part=part, parts=8), weight=10))
@@ -368,6 +458,7 @@ ASSUMPTIONS = [
     'the TLS handshake is scripted (succeeds or raises SSLError); only the policy decisions around it are decided',
     'certificates are real X.509 (EC P-256, self-signed) carrying the chosen subject alternative names',
     'an identifier type "contradicts" when the certificate presents names of that type and none equals the reference; with no reference (peer DNS name unknown) a DNS name cannot contradict and cannot authenticate the host',
+    'configuration file: read by the JSON-subset stand-in for PyYAML; every combination of absent / true / false / null / 0 / empty values of nine settings, and the TLS rows of table 1 with the settings taken from the file',
     'a correct scripted peer: contact header (flags octet 0x00, 0x01, 0x03, 0x81, 0xFE or 0xFF: reserved bits are ignored), then SESS_INIT announcing its node ID or a zero-length node ID (which no URI name of a certificate equals)',
 ]
 
